@@ -2,7 +2,7 @@
 import random
 from fractions import Fraction
 from . import core, sketchcheck
-from .sketchgen import Builder, mapspec, STORES, rand_values, oracle_quantile_weighted
+from .sketchgen import Builder, mapspec, STORES, rand_values, oracle_quantile_weighted, spec_list
 from .core import f2h, parse_F, nextafter
 
 def wgt(rng, small):
@@ -46,7 +46,7 @@ def build(rng, facts, name):
 def run(tier, seed):
     rng = random.Random(seed)
     ok, log = core.build_vrun()
-    specs = [mapspec(rng)[0] for _ in range(15 if tier == "quick" else 60)]
+    specs = spec_list(rng, 15 if tier == "quick" else 60)
     facts = sketchcheck.learn_specs("C11", specs) if ok else {}
     n = 400 if tier == "quick" else 10000
     builders = [build(rng, facts, "w%d" % i) for i in range(n)] if facts else []
